@@ -486,6 +486,8 @@ def doe_settings(name, n, cfg, t):
         s["random_state"] = 1 + t.choice(20, "doe_seed")
     elif name.startswith("OT_") and name not in ("OT_FACTORIAL", "OT_COMPOSITE", "OT_AXIAL", "OT_FULLFACT"):
         s["seed"] = 1 + t.choice(20, "doe_seed")
+    if not cfg.get("integer") and t.flag(0.3, "doe_normalize_design_space"):
+        s["normalize_design_space"] = True  # (a documented setting of every DOE; the default is False)
     return s
 
 
@@ -617,27 +619,37 @@ def check_doe(ctx, cfg, sig, e, problem, tracked, kw, plan, keys, lib):
     if e > 0 or not kw.get("use_database", True) or plan["nan"]:
         return
     tr = tracked["f"]
+
+    def rnd(pt):
+        # with a normalised design space the functions see unnormalize(normalize(sample)): equal up to round-off
+        return tuple(round(float(v), 10) + 0.0 for v in pt)
+
     samples = []
     for srow in lib.samples:
-        p = tuple(float(v) for v in srow)
+        p = rnd(srow)
         if p not in samples:
             samples.append(p)
-    cnt = Counter(tr.calls)
+    cnt = Counter(rnd(c) for c in tr.calls)
+    keys = [rnd(k) for k in keys]
+    tr_points = []
+    for q in tr.points:
+        if rnd(q) not in tr_points:
+            tr_points.append(rnd(q))
     failed_pts = set()
     for name, jj in plan["raise"].items():
         t2 = tracked.get(name)
         if t2 is not None and len(t2.points) >= jj:
-            failed_pts.add(t2.points[jj - 1])  # a failed sample may legitimately be tried again by a duplicate
+            failed_pts.add(rnd(t2.points[jj - 1]))  # a failed sample may legitimately be tried again by a duplicate
     for p in samples:
         if cnt.get(p, 0) > 1 and p not in failed_pts:
             ctx.violate("C03.doe_once", sig, f"objective called {cnt[p]} times at sample {p}; cfg={cfg}")
-    stray = [p for p in tr.points if p not in samples]
+    stray = [p for p in tr_points if p not in samples]
     if stray:
         ctx.violate("C03.doe_once", sig + " stray", f"objective called at points that are not generated samples: {stray[:3]}; cfg={cfg}")
     obj_failed = set()
     j = plan["raise"].get("f")
     if j and len(tr.points) >= j:
-        obj_failed.add(tr.points[j - 1])
+        obj_failed.add(rnd(tr.points[j - 1]))
     evaluated = [p for p in samples if p in cnt]
     if "max_time" not in kw and len(evaluated) != len(samples):
         ctx.violate("C03.doe_once", sig + " missing", f"{len(samples) - len(evaluated)} generated samples were never evaluated; cfg={cfg}")
